@@ -77,6 +77,17 @@ func (p *Program) VerifyFunc(key string) (u *Unit, err error) {
 		}
 		u.assumeRec(t, rec)
 	}
+	// package-level variables set once by package initialisation (no function stores to them: checked by GlobalStores)
+	for _, gi := range p.CS.GlobalInvs {
+		genv := *env
+		if tp, ok := p.TPkgs[gi.Label]; ok {
+			genv.pkg = tp
+		}
+		if t, err := genv.EvalBool(gi.Expr); err == nil {
+			u.assume(t)
+			u.trusted["globalinv "+gi.Src+" (package initialisation; no other store: scanned)"] = true
+		}
+	}
 	u.cover(key, "pre", p.pos(fn.Pos()), "true")
 	// ghost events that stand for "this function was called": emitted on entry when their arguments and
 	// condition do not mention results, otherwise at each return
@@ -212,6 +223,11 @@ func (p *Program) VerifyFunc(key string) (u *Unit, err error) {
 				u.emitEvent(r.st, es.Kind, evs)
 			}
 		}
+	}
+	// every return path must be reachable in the model (a contradiction among assumed contracts would make the
+	// postconditions of that path vacuous)
+	for k, r := range fr.rets {
+		u.Obls = append(u.Obls, &Obligation{Name: fmt.Sprintf("%s#cover.ret%d", key, k), Func: key, Kind: "cover", Pos: p.pos(fn.Pos()), Prefix: len(u.cmds), Guard: r.guard, Goal: "false", Cover: true, unit: u})
 	}
 	// postconditions, one case per return path (no merged heaps in the query)
 	used := map[string]int{}
